@@ -357,7 +357,8 @@ func (x *Exec) assumeTypeInv(st *State, v Value, pre bool) {
 	bound := st.AllocTerm()
 	switch u := types.Unalias(v.Typ).Underlying().(type) {
 	case *types.Pointer, *types.Map, *types.Chan:
-		st.Assume(fmt.Sprintf("(and (>= %s 0) (< %s %s))", v.Term, v.Term, bound))
+		// interior pointers (elemref/fieldref) are negative, objects positive, nil is 0
+		st.Assume(fmt.Sprintf("(< %s %s)", v.Term, bound))
 	case *types.Slice:
 		st.Assume(fmt.Sprintf("(and (>= (sbase %s) 0) (< (sbase %s) %s) (>= (slen %s) 0) (>= (scap %s) (slen %s)) (=> (= (sbase %s) 0) (= (scap %s) 0)))",
 			v.Term, v.Term, bound, v.Term, v.Term, v.Term, v.Term, v.Term))
@@ -1078,7 +1079,7 @@ func (x *Exec) step(st *State, ins ssa.Instruction) {
 		} else {
 			name := x.TM.ElemArray(es)
 			arr := x.elemArr(st, es)
-			st.Heap[name] = Store(arr, r, fmt.Sprintf("((as const (Array Int %s)) %s)", ksort(es), x.TM.Zero(et)))
+			st.Heap[name] = Store(arr, r, x.TM.ConstArray(ksort(es), x.TM.Zero(et)))
 		}
 		fr.Regs[ins] = x.mk(fmt.Sprintf("(mk_slice %s %s %s)", r, l.Term, c.Term), ins.Type())
 	case *ssa.MakeMap:
@@ -1497,7 +1498,7 @@ func (x *Exec) assumeTypeInvCond(st *State, v Value, cond string) {
 	}
 	switch types.Unalias(v.Typ).Underlying().(type) {
 	case *types.Pointer, *types.Map, *types.Chan:
-		st.Assume(Implies(cond, fmt.Sprintf("(and (>= %s 0) (< %s %s))", v.Term, v.Term, st.AllocTerm())))
+		st.Assume(Implies(cond, fmt.Sprintf("(< %s %s)", v.Term, st.AllocTerm())))
 	case *types.Slice:
 		st.Assume(Implies(cond, fmt.Sprintf("(and (>= (sbase %s) 0) (< (sbase %s) %s) (>= (slen %s) 0) (>= (scap %s) (slen %s)))", v.Term, v.Term, st.AllocTerm(), v.Term, v.Term, v.Term)))
 	case *types.Basic:
